@@ -1,4 +1,5 @@
 import FluentVerif.Msgp.Inv
+import FluentVerif.Msgp.Ext32
 import FluentVerif.Proto.Decode
 import FluentVerif.Props.C11Lemmas
 /-! Completeness of the repository's decoders with respect to the *specification parser*: whatever
@@ -34,11 +35,11 @@ def foldOpts : Objs → Options → Options
   | .cons (.str k) (.cons v rest), o => foldOpts rest (applyOpt o k v)
   | _, o => o
 
-theorem handler_complete (k : Bytes) (v : Obj) (o : Options) (b r : Bytes) (hp : parse b = some (v, r))
-    (hv : OptValOK k v) :
+theorem handler_complete (p : Path) (k : Bytes) (v : Obj) (o : Options) (b r : Bytes) (hp : parse b = some (v, r))
+    (hv : OptValOK k v) (hxv : p = .stream → hasExt32 b = false) :
     (match Options.handlers k with
      | some f => f o b
-     | none => (skip b).bind fun _ b2 => .ok o b2) = .ok (applyOpt o k v) r := by
+     | none => (skipP p b).bind fun _ b2 => .ok o b2) = .ok (applyOpt o k v) r := by
   unfold Options.handlers applyOpt OptValOK at *
   by_cases h1 : k = kSize
   · simp only [h1, if_true] at hv ⊢
@@ -59,7 +60,7 @@ theorem handler_complete (k : Bytes) (v : Obj) (o : Options) (b r : Bytes) (hp :
         obtain ⟨s, rfl⟩ := hv
         rw [readString_of_parse hp]; rfl
       · simp only [h3, if_false]
-        rw [skip_of_parse hp]; rfl
+        rw [skipP_of_parse hp hxv]; rfl
 
 theorem readMapKey_of_parse_str (p : Path) {b s r} (h : parse b = some (.str s, r)) (hne : s ≠ []) :
     readMapKey p b = .ok s r := by
@@ -69,15 +70,15 @@ theorem readMapKey_of_parse_str (p : Path) {b s r} (h : parse b = some (.str s, 
 
 /-- the generated field loop of `MessageOptions` on a conforming option map -/
 theorem readFields_options_complete (p : Path) : ∀ (n : Nat) (b : Bytes) (kvs : Objs) (r : Bytes) (o : Options),
-    parseSeq (2*n) b = some (kvs, r) → OptKVsOK kvs →
+    parseSeq (2*n) b = some (kvs, r) → OptKVsOK kvs → (p = .stream → ext32Seq (2*n) b = false) →
     readFields p Options.handlers n o b = .ok (foldOpts kvs o) r
-  | 0, b, kvs, r, o, h, _ => by
+  | 0, b, kvs, r, o, h, _, _ => by
     simp only [Nat.mul_zero, parseSeq, Option.some.injEq, Prod.mk.injEq] at h
     obtain ⟨rfl, rfl⟩ := h
     simp [readFields, foldOpts]
-  | n+1, b, kvs, r, o, h, hk => by
+  | n+1, b, kvs, r, o, h, hk, hxs => by
     have e : 2 * (n + 1) = (2 * n + 1) + 1 := by omega
-    rw [e] at h
+    rw [e] at h hxs
     cases kvs with
     | nil => exact absurd (parseSeq_nil_inv h).1 (by omega)
     | cons x xs =>
@@ -95,27 +96,33 @@ theorem readFields_options_complete (p : Path) : ∀ (n : Nat) (b : Bytes) (kvs 
         unfold readFields
         rw [readMapKey_of_parse_str p hx hne]
         simp only [Res.bind]
-        have hc := handler_complete s v o b1 b2 hv hval
+        have hxv : p = .stream → hasExt32 b1 = false := fun hp' =>
+          (ext32Seq_cons (ext32Seq_cons (hxs hp') hx).2 hv).1
+        have hx2 : p = .stream → ext32Seq (2 * n) b2 = false := fun hp' =>
+          (ext32Seq_cons (ext32Seq_cons (hxs hp') hx).2 hv).2
+        have hc := handler_complete p s v o b1 b2 hv hval hxv
         cases hh : Options.handlers s with
         | some f =>
           rw [hh] at hc; simp only at hc
           simp only [hc, foldOpts]
-          exact readFields_options_complete p n b2 rest r _ h2 hrest
+          exact readFields_options_complete p n b2 rest r _ h2 hrest hx2
         | none =>
           rw [hh] at hc; simp only at hc
-          have hskip := skip_of_parse hv
+          have hskip := skipP_of_parse hv hxv
           rw [hskip] at hc
           simp only [Res.bind, Res.ok.injEq, and_true] at hc
           simp only [hskip, foldOpts, ← hc]
-          exact readFields_options_complete p n b2 rest r _ h2 hrest
+          exact readFields_options_complete p n b2 rest r _ h2 hrest hx2
 
 /-- `MessageOptions` decoding of any conforming option map -/
 theorem Options.unmarshal_complete (p : Path) (recv : Options) {b kvs r} (h : parse b = some (.map kvs, r))
-    (hk : OptKVsOK kvs) : Options.unmarshal p recv b = .ok (foldOpts kvs recv) r := by
+    (hk : OptKVsOK kvs) (hx : p = .stream → hasExt32 b = false) :
+    Options.unmarshal p recv b = .ok (foldOpts kvs recv) r := by
   obtain ⟨n, r0, hh, hs⟩ := readMapHeader_of_parse h
+  have hhd := readMapHeader_sound hh
   unfold Options.unmarshal
   rw [hh]; simp only [Res.bind]
-  exact readFields_options_complete p n r0 kvs r recv hs hk
+  exact readFields_options_complete p n r0 kvs r recv hs hk (fun hp' => by rw [← hasExt32_map hhd hs]; exact hx hp')
 
 /-- the trailing option element: nil or a conforming map -/
 def OptObjOK : Obj → Prop
@@ -127,7 +134,8 @@ def optOfObj : Obj → Option Options
   | .map kvs => some (foldOpts kvs {})
   | _ => none
 
-theorem readOptionsOrNil_complete (p : Path) {b o r} (h : parse b = some (o, r)) (ho : OptObjOK o) :
+theorem readOptionsOrNil_complete (p : Path) {b o r} (h : parse b = some (o, r)) (ho : OptObjOK o)
+    (hx : p = .stream → hasExt32 b = false) :
     readOptionsOrNil p b = .ok (optOfObj o) r := by
   unfold readOptionsOrNil
   cases o with
@@ -135,7 +143,7 @@ theorem readOptionsOrNil_complete (p : Path) {b o r} (h : parse b = some (o, r))
   | map kvs =>
     rw [isNil_false_of_parse h (by intro e; cases e)]
     simp only [Bool.false_eq_true, if_false]
-    rw [Options.unmarshal_complete p {} h ho]; rfl
+    rw [Options.unmarshal_complete p {} h ho hx]; rfl
   | _ => simp [OptObjOK] at ho
 
 end FV
@@ -157,7 +165,8 @@ theorem parseSeq_zero_inv {b xs r} (h : parseSeq 0 b = some (xs, r)) : xs = .nil
   exact ⟨h.1.symm, h.2.symm⟩
 
 /-- the tail of a mode array: nothing (3 / 2 elements) or the option element (4 / 3 elements) -/
-theorem tail_complete (p : Path) {m b tail r} (hs : parseSeq m b = some (tail, r)) (ht : TailOK tail) :
+theorem tail_complete (p : Path) {m b tail r} (hs : parseSeq m b = some (tail, r)) (ht : TailOK tail)
+    (hx : p = .stream → ext32Seq m b = false) :
     (m = 0 ∧ tail = .nil ∧ r = b) ∨ (m = 1 ∧ readOptionsOrNil p b = .ok (optOfTail tail) r) := by
   cases tail with
   | nil => obtain ⟨h1, h2⟩ := parseSeq_nil_inv hs; exact Or.inl ⟨h1, rfl, h2⟩
@@ -168,21 +177,27 @@ theorem tail_complete (p : Path) {m b tail r} (hs : parseSeq m b = some (tail, r
       obtain ⟨m', b1, hm, ho, h1⟩ := parseSeq_cons_inv hs
       obtain ⟨hm0, hr⟩ := parseSeq_nil_inv h1
       subst hm0; subst hr
-      exact Or.inr ⟨hm, by simpa [optOfTail] using readOptionsOrNil_complete p ho ht⟩
+      subst hm
+      have hxo : p = .stream → hasExt32 b = false := fun hp' => (ext32Seq_cons (hx hp') ho).1
+      exact Or.inr ⟨rfl, by simpa [optOfTail] using readOptionsOrNil_complete p ho ht hxo⟩
 
 /-- **Message mode, any conforming encoding** -/
 theorem Message.unmarshal_complete (p : Path) (recv : Message) {b r : Bytes} {tag : Bytes} {i : Int} {rec : Obj}
     {tail : Objs}
     (h : parse b = some (.arr (.cons (.str tag) (.cons (.int i) (.cons rec tail))), r))
-    (hi : inInt64 i) (hrec : Obj.Plain rec) (ht : TailOK tail) :
+    (hi : inInt64 i) (hrec : Obj.Plain rec) (ht : TailOK tail) (hx : p = .stream → hasExt32 b = false) :
     Message.unmarshal p recv b = .ok { tag := tag, ts := i, record := rec, options := optOfTail tail } r := by
   obtain ⟨n, r0, hh, hs⟩ := readArrayHeader_of_parse h
   obtain ⟨n1, b1, e1, p1, s1⟩ := parseSeq_cons_inv hs
   obtain ⟨n2, b2, e2, p2, s2⟩ := parseSeq_cons_inv s1
   obtain ⟨n3, b3, e3, p3, s3⟩ := parseSeq_cons_inv s2
+  have hx3 : p = .stream → ext32Seq n3 b3 = false := fun hp' => by
+    have h0 : ext32Seq n r0 = false := by rw [← hasExt32_arr (readArrayHeader_sound hh) hs]; exact hx hp'
+    subst e1; subst e2; subst e3
+    exact (ext32Seq_cons (ext32Seq_cons (ext32Seq_cons h0 p1).2 p2).2 p3).2
   unfold Message.unmarshal
   rw [hh]; simp only [Res.bind]
-  rcases tail_complete p s3 ht with ⟨h0, rfl, rfl⟩ | ⟨h1, hopt⟩
+  rcases tail_complete p s3 ht hx3 with ⟨h0, rfl, rfl⟩ | ⟨h1, hopt⟩
   · have : n = 3 := by omega
     subst this
     simp [readString_of_parse p1, readInt64_of_parse p2 hi, readIntf_complete p p3 hrec, Res.bind, optOfTail]
@@ -194,18 +209,22 @@ theorem Message.unmarshal_complete (p : Path) (recv : Message) {b r : Bytes} {ta
 theorem MessageExt.unmarshal_complete (p : Path) (recv : MessageExt) {b r : Bytes} {tag d : Bytes} {rec : Obj}
     {tail : Objs}
     (h : parse b = some (.arr (.cons (.str tag) (.cons (.ext 0 d) (.cons rec tail))), r))
-    (hd : d.length = 8) (hrec : Obj.Plain rec) (ht : TailOK tail) :
+    (hd : d.length = 8) (hrec : Obj.Plain rec) (ht : TailOK tail) (hx : p = .stream → hasExt32 b = false) :
     ∃ ts, decodeET d = some ts ∧
       MessageExt.unmarshal p recv b = .ok { tag := tag, ts := ts, record := rec, options := optOfTail tail } r := by
   obtain ⟨n, r0, hh, hs⟩ := readArrayHeader_of_parse h
   obtain ⟨n1, b1, e1, p1, s1⟩ := parseSeq_cons_inv hs
   obtain ⟨n2, b2, e2, p2, s2⟩ := parseSeq_cons_inv s1
   obtain ⟨n3, b3, e3, p3, s3⟩ := parseSeq_cons_inv s2
+  have hx3 : p = .stream → ext32Seq n3 b3 = false := fun hp' => by
+    have h0 : ext32Seq n r0 = false := by rw [← hasExt32_arr (readArrayHeader_sound hh) hs]; exact hx hp'
+    subst e1; subst e2; subst e3
+    exact (ext32Seq_cons (ext32Seq_cons (ext32Seq_cons h0 p1).2 p2).2 p3).2
   obtain ⟨ts, hts, hread⟩ := readEventTime_of_parse p2 hd
   refine ⟨ts, hts, ?_⟩
   unfold MessageExt.unmarshal
   rw [hh]; simp only [Res.bind]
-  rcases tail_complete p s3 ht with ⟨h0, rfl, rfl⟩ | ⟨h1, hopt⟩
+  rcases tail_complete p s3 ht hx3 with ⟨h0, rfl, rfl⟩ | ⟨h1, hopt⟩
   · have : n = 3 := by omega
     subst this
     simp [readString_of_parse p1, hread, readIntf_complete p p3 hrec, Res.bind, optOfTail]
@@ -215,14 +234,19 @@ theorem MessageExt.unmarshal_complete (p : Path) (recv : MessageExt) {b r : Byte
 
 /-- **PackedForward mode, any conforming encoding** -/
 theorem Packed.unmarshal_complete (p : Path) (recv : Packed) {b r : Bytes} {tag s : Bytes} {tail : Objs}
-    (h : parse b = some (.arr (.cons (.str tag) (.cons (.bin s) tail)), r)) (ht : TailOK tail) :
+    (h : parse b = some (.arr (.cons (.str tag) (.cons (.bin s) tail)), r)) (ht : TailOK tail)
+    (hx : p = .stream → hasExt32 b = false) :
     Packed.unmarshal p recv b = .ok { tag := tag, stream := s, options := optOfTail tail } r := by
   obtain ⟨n, r0, hh, hs⟩ := readArrayHeader_of_parse h
   obtain ⟨n1, b1, e1, p1, s1⟩ := parseSeq_cons_inv hs
   obtain ⟨n2, b2, e2, p2, s2⟩ := parseSeq_cons_inv s1
+  have hx2 : p = .stream → ext32Seq n2 b2 = false := fun hp' => by
+    have h0 : ext32Seq n r0 = false := by rw [← hasExt32_arr (readArrayHeader_sound hh) hs]; exact hx hp'
+    subst e1; subst e2
+    exact (ext32Seq_cons (ext32Seq_cons h0 p1).2 p2).2
   unfold Packed.unmarshal
   rw [hh]; simp only [Res.bind]
-  rcases tail_complete p s2 ht with ⟨h0, rfl, rfl⟩ | ⟨h1, hopt⟩
+  rcases tail_complete p s2 ht hx2 with ⟨h0, rfl, rfl⟩ | ⟨h1, hopt⟩
   · have : n = 2 := by omega
     subst this
     simp [readString_of_parse p1, readBytes_of_parse p2, Res.bind, optOfTail]
@@ -287,11 +311,16 @@ theorem readEntries_complete (p : Path) : ∀ (n : Nat) (b : Bytes) (es : Objs) 
 
 /-- **Forward mode, any conforming encoding** -/
 theorem Forward.unmarshal_complete (p : Path) (recv : Forward) {b r : Bytes} {tag : Bytes} {es tail : Objs}
-    (h : parse b = some (.arr (.cons (.str tag) (.cons (.arr es) tail)), r)) (hes : EntriesOK es) (ht : TailOK tail) :
+    (h : parse b = some (.arr (.cons (.str tag) (.cons (.arr es) tail)), r)) (hes : EntriesOK es) (ht : TailOK tail)
+    (hx : p = .stream → hasExt32 b = false) :
     Forward.unmarshal p recv b = .ok { tag := tag, entries := entriesOfObjs es, options := optOfTail tail } r := by
   obtain ⟨n, r0, hh, hs⟩ := readArrayHeader_of_parse h
   obtain ⟨n1, b1, e1, p1, s1⟩ := parseSeq_cons_inv hs
   obtain ⟨n2, b2, e2, p2, s2⟩ := parseSeq_cons_inv s1
+  have hx2 : p = .stream → ext32Seq n2 b2 = false := fun hp' => by
+    have h0 : ext32Seq n r0 = false := by rw [← hasExt32_arr (readArrayHeader_sound hh) hs]; exact hx hp'
+    subst e1; subst e2
+    exact (ext32Seq_cons (ext32Seq_cons h0 p1).2 p2).2
   obtain ⟨k, r1, hk, hks⟩ := readArrayHeader_of_parse p2
   have hel : EntryList.unmarshal p b1 = .ok (entriesOfObjs es) b2 := by
     unfold EntryList.unmarshal
@@ -299,7 +328,7 @@ theorem Forward.unmarshal_complete (p : Path) (recv : Forward) {b r : Bytes} {ta
     exact readEntries_complete p k r1 es b2 hks hes
   unfold Forward.unmarshal
   rw [hh]; simp only [Res.bind]
-  rcases tail_complete p s2 ht with ⟨h0, rfl, rfl⟩ | ⟨h1, hopt⟩
+  rcases tail_complete p s2 ht hx2 with ⟨h0, rfl, rfl⟩ | ⟨h1, hopt⟩
   · have : n = 2 := by omega
     subst this
     simp [readString_of_parse p1, hel, Res.bind, optOfTail]
